@@ -20,21 +20,21 @@ const (
 	updateObjectByIdStmt                                                                                  = "UPDATE objects SET bucket_name = $1, key = $2, content_type = $3, cache_control = $4, content_disposition = $5, content_encoding = $6, content_language = $7, expires = $8, website_redirect_location = $9, etag = $10, checksum_crc32 = $11, checksum_crc32c = $12, checksum_crc64nvme = $13, checksum_sha1 = $14, checksum_sha256 = $15, checksum_type = $16, size = $17, version_id = $18, is_delete_marker = $19, is_latest = $20, upload_status = $21, upload_id = $22, storage_class = $23, optimistic_lock_version = optimistic_lock_version + 1, updated_at = $24, created_at = $25 WHERE id = $26"
 	updateObjectByIdAndOptimisticLockVersionStmt                                                          = "UPDATE objects SET bucket_name = $1, key = $2, content_type = $3, cache_control = $4, content_disposition = $5, content_encoding = $6, content_language = $7, expires = $8, website_redirect_location = $9, etag = $10, checksum_crc32 = $11, checksum_crc32c = $12, checksum_crc64nvme = $13, checksum_sha1 = $14, checksum_sha256 = $15, checksum_type = $16, size = $17, version_id = $18, is_delete_marker = $19, is_latest = $20, upload_status = $21, upload_id = $22, storage_class = $23, optimistic_lock_version = optimistic_lock_version + 1, updated_at = $24, created_at = $25 WHERE id = $26 AND optimistic_lock_version = $27"
 	containsBucketObjectsByBucketNameStmt                                                                 = "SELECT id FROM objects WHERE bucket_name = $1"
-	findObjectsByBucketNameAndPrefixAndStartAfterOrderByKeyAscStmt                                        = "SELECT id, bucket_name, key, content_type, cache_control, content_disposition, content_encoding, content_language, expires, website_redirect_location, etag, checksum_crc32, checksum_crc32c, checksum_crc64nvme, checksum_sha1, checksum_sha256, checksum_type, size, version_id, is_delete_marker, is_latest, upload_status, upload_id, optimistic_lock_version, created_at, updated_at, storage_class FROM objects WHERE bucket_name = $1 AND key LIKE $2 || '%' AND key > $3 AND upload_status = $4 AND is_latest = 1 AND is_delete_marker = 0 ORDER BY key ASC"
-	findObjectsByBucketNameAndPrefixAndStartAfterOrderByKeyAscWithLimitStmt                               = "SELECT id, bucket_name, key, content_type, cache_control, content_disposition, content_encoding, content_language, expires, website_redirect_location, etag, checksum_crc32, checksum_crc32c, checksum_crc64nvme, checksum_sha1, checksum_sha256, checksum_type, size, version_id, is_delete_marker, is_latest, upload_status, upload_id, optimistic_lock_version, created_at, updated_at, storage_class FROM objects WHERE bucket_name = $1 AND key LIKE $2 || '%' AND key > $3 AND upload_status = $4 AND is_latest = 1 AND is_delete_marker = 0 ORDER BY key ASC LIMIT $5"
-	findObjectsByBucketNameAndPrefixAndKeyMarkerAndUploadIdMarkerOrderByKeyAscAndUploadIdAscStmt          = "SELECT id, bucket_name, key, content_type, cache_control, content_disposition, content_encoding, content_language, expires, website_redirect_location, etag, checksum_crc32, checksum_crc32c, checksum_crc64nvme, checksum_sha1, checksum_sha256, checksum_type, size, version_id, is_delete_marker, is_latest, upload_status, upload_id, optimistic_lock_version, created_at, updated_at, storage_class FROM objects WHERE bucket_name = $1 AND key LIKE $2 || '%' AND (key > $3 OR ($4 <> '' AND key = $3 AND upload_id > $4)) AND upload_status = $5 ORDER BY key ASC, upload_id ASC"
-	findObjectsByBucketNameAndPrefixAndKeyMarkerAndUploadIdMarkerOrderByKeyAscAndUploadIdAscWithLimitStmt = "SELECT id, bucket_name, key, content_type, cache_control, content_disposition, content_encoding, content_language, expires, website_redirect_location, etag, checksum_crc32, checksum_crc32c, checksum_crc64nvme, checksum_sha1, checksum_sha256, checksum_type, size, version_id, is_delete_marker, is_latest, upload_status, upload_id, optimistic_lock_version, created_at, updated_at, storage_class FROM objects WHERE bucket_name = $1 AND key LIKE $2 || '%' AND (key > $3 OR ($4 <> '' AND key = $3 AND upload_id > $4)) AND upload_status = $5 ORDER BY key ASC, upload_id ASC LIMIT $6"
+	findObjectsByBucketNameAndPrefixAndStartAfterOrderByKeyAscStmt                                        = "SELECT id, bucket_name, key, content_type, cache_control, content_disposition, content_encoding, content_language, expires, website_redirect_location, etag, checksum_crc32, checksum_crc32c, checksum_crc64nvme, checksum_sha1, checksum_sha256, checksum_type, size, version_id, is_delete_marker, is_latest, upload_status, upload_id, optimistic_lock_version, created_at, updated_at, storage_class FROM objects WHERE bucket_name = $1 AND substr(key, 1, length($2)) = $2 AND key > $3 AND upload_status = $4 AND is_latest = 1 AND is_delete_marker = 0 ORDER BY key ASC"
+	findObjectsByBucketNameAndPrefixAndStartAfterOrderByKeyAscWithLimitStmt                               = "SELECT id, bucket_name, key, content_type, cache_control, content_disposition, content_encoding, content_language, expires, website_redirect_location, etag, checksum_crc32, checksum_crc32c, checksum_crc64nvme, checksum_sha1, checksum_sha256, checksum_type, size, version_id, is_delete_marker, is_latest, upload_status, upload_id, optimistic_lock_version, created_at, updated_at, storage_class FROM objects WHERE bucket_name = $1 AND substr(key, 1, length($2)) = $2 AND key > $3 AND upload_status = $4 AND is_latest = 1 AND is_delete_marker = 0 ORDER BY key ASC LIMIT $5"
+	findObjectsByBucketNameAndPrefixAndKeyMarkerAndUploadIdMarkerOrderByKeyAscAndUploadIdAscStmt          = "SELECT id, bucket_name, key, content_type, cache_control, content_disposition, content_encoding, content_language, expires, website_redirect_location, etag, checksum_crc32, checksum_crc32c, checksum_crc64nvme, checksum_sha1, checksum_sha256, checksum_type, size, version_id, is_delete_marker, is_latest, upload_status, upload_id, optimistic_lock_version, created_at, updated_at, storage_class FROM objects WHERE bucket_name = $1 AND substr(key, 1, length($2)) = $2 AND (key > $3 OR ($4 <> '' AND key = $3 AND upload_id > $4)) AND upload_status = $5 ORDER BY key ASC, upload_id ASC"
+	findObjectsByBucketNameAndPrefixAndKeyMarkerAndUploadIdMarkerOrderByKeyAscAndUploadIdAscWithLimitStmt = "SELECT id, bucket_name, key, content_type, cache_control, content_disposition, content_encoding, content_language, expires, website_redirect_location, etag, checksum_crc32, checksum_crc32c, checksum_crc64nvme, checksum_sha1, checksum_sha256, checksum_type, size, version_id, is_delete_marker, is_latest, upload_status, upload_id, optimistic_lock_version, created_at, updated_at, storage_class FROM objects WHERE bucket_name = $1 AND substr(key, 1, length($2)) = $2 AND (key > $3 OR ($4 <> '' AND key = $3 AND upload_id > $4)) AND upload_status = $5 ORDER BY key ASC, upload_id ASC LIMIT $6"
 	findObjectByBucketNameAndKeyAndUploadIdStmt                                                           = "SELECT id, bucket_name, key, content_type, cache_control, content_disposition, content_encoding, content_language, expires, website_redirect_location, etag, checksum_crc32, checksum_crc32c, checksum_crc64nvme, checksum_sha1, checksum_sha256, checksum_type, size, version_id, is_delete_marker, is_latest, upload_status, upload_id, optimistic_lock_version, created_at, updated_at, storage_class FROM objects WHERE bucket_name = $1 AND key = $2 AND upload_id = $3 AND upload_status = $4"
 	findObjectByBucketNameAndKeyStmt                                                                      = "SELECT id, bucket_name, key, content_type, cache_control, content_disposition, content_encoding, content_language, expires, website_redirect_location, etag, checksum_crc32, checksum_crc32c, checksum_crc64nvme, checksum_sha1, checksum_sha256, checksum_type, size, version_id, is_delete_marker, is_latest, upload_status, upload_id, optimistic_lock_version, created_at, updated_at, storage_class FROM objects WHERE bucket_name = $1 AND key = $2 AND upload_status = $3 AND is_latest = 1"
-	countObjectsByBucketNameAndPrefixAndStartAfterStmt                                                    = "SELECT COUNT(*) FROM objects WHERE bucket_name = $1 and key LIKE $2 || '%' AND key > $3 AND upload_status = $4 AND is_latest = 1 AND is_delete_marker = 0"
-	countObjectsByBucketNameAndPrefixAndKeyMarkerAndUploadIdMarkerStmt                                    = "SELECT COUNT(*) FROM objects WHERE bucket_name = $1 and key LIKE $2 || '%' AND (key > $3 OR ($4 <> '' AND key = $3 AND upload_id > $4)) AND upload_status = $5"
+	countObjectsByBucketNameAndPrefixAndStartAfterStmt                                                    = "SELECT COUNT(*) FROM objects WHERE bucket_name = $1 and substr(key, 1, length($2)) = $2 AND key > $3 AND upload_status = $4 AND is_latest = 1 AND is_delete_marker = 0"
+	countObjectsByBucketNameAndPrefixAndKeyMarkerAndUploadIdMarkerStmt                                    = "SELECT COUNT(*) FROM objects WHERE bucket_name = $1 and substr(key, 1, length($2)) = $2 AND (key > $3 OR ($4 <> '' AND key = $3 AND upload_id > $4)) AND upload_status = $5"
 	// Version ids are ULIDs, so their lexicographic order matches creation
 	// order; the special 'null' version is mapped to '' so it sorts last
 	// within a key instead of comparing greater than every ULID. The marker
 	// filter must use the same expression as the ORDER BY for keyset
 	// pagination to be consistent.
-	findObjectVersionsByBucketNameAndPrefixAndKeyMarkerAndVersionIDMarkerOrderByKeyAscAndVersionIDDescStmt          = "SELECT id, bucket_name, key, content_type, cache_control, content_disposition, content_encoding, content_language, expires, website_redirect_location, etag, checksum_crc32, checksum_crc32c, checksum_crc64nvme, checksum_sha1, checksum_sha256, checksum_type, size, version_id, is_delete_marker, is_latest, upload_status, upload_id, optimistic_lock_version, created_at, updated_at, storage_class FROM objects WHERE bucket_name = $1 AND key LIKE $2 || '%' AND upload_status = $3 AND (key > $4 OR (key = $4 AND COALESCE(NULLIF(version_id, 'null'), '') < COALESCE(NULLIF($5, 'null'), ''))) ORDER BY key ASC, COALESCE(NULLIF(version_id, 'null'), '') DESC"
-	findObjectVersionsByBucketNameAndPrefixAndKeyMarkerAndVersionIDMarkerOrderByKeyAscAndVersionIDDescWithLimitStmt = "SELECT id, bucket_name, key, content_type, cache_control, content_disposition, content_encoding, content_language, expires, website_redirect_location, etag, checksum_crc32, checksum_crc32c, checksum_crc64nvme, checksum_sha1, checksum_sha256, checksum_type, size, version_id, is_delete_marker, is_latest, upload_status, upload_id, optimistic_lock_version, created_at, updated_at, storage_class FROM objects WHERE bucket_name = $1 AND key LIKE $2 || '%' AND upload_status = $3 AND (key > $4 OR (key = $4 AND COALESCE(NULLIF(version_id, 'null'), '') < COALESCE(NULLIF($5, 'null'), ''))) ORDER BY key ASC, COALESCE(NULLIF(version_id, 'null'), '') DESC LIMIT $6"
+	findObjectVersionsByBucketNameAndPrefixAndKeyMarkerAndVersionIDMarkerOrderByKeyAscAndVersionIDDescStmt          = "SELECT id, bucket_name, key, content_type, cache_control, content_disposition, content_encoding, content_language, expires, website_redirect_location, etag, checksum_crc32, checksum_crc32c, checksum_crc64nvme, checksum_sha1, checksum_sha256, checksum_type, size, version_id, is_delete_marker, is_latest, upload_status, upload_id, optimistic_lock_version, created_at, updated_at, storage_class FROM objects WHERE bucket_name = $1 AND substr(key, 1, length($2)) = $2 AND upload_status = $3 AND (key > $4 OR (key = $4 AND COALESCE(NULLIF(version_id, 'null'), '') < COALESCE(NULLIF($5, 'null'), ''))) ORDER BY key ASC, COALESCE(NULLIF(version_id, 'null'), '') DESC"
+	findObjectVersionsByBucketNameAndPrefixAndKeyMarkerAndVersionIDMarkerOrderByKeyAscAndVersionIDDescWithLimitStmt = "SELECT id, bucket_name, key, content_type, cache_control, content_disposition, content_encoding, content_language, expires, website_redirect_location, etag, checksum_crc32, checksum_crc32c, checksum_crc64nvme, checksum_sha1, checksum_sha256, checksum_type, size, version_id, is_delete_marker, is_latest, upload_status, upload_id, optimistic_lock_version, created_at, updated_at, storage_class FROM objects WHERE bucket_name = $1 AND substr(key, 1, length($2)) = $2 AND upload_status = $3 AND (key > $4 OR (key = $4 AND COALESCE(NULLIF(version_id, 'null'), '') < COALESCE(NULLIF($5, 'null'), ''))) ORDER BY key ASC, COALESCE(NULLIF(version_id, 'null'), '') DESC LIMIT $6"
 	findObjectByBucketNameAndKeyAndVersionIDStmt                                                                    = "SELECT id, bucket_name, key, content_type, cache_control, content_disposition, content_encoding, content_language, expires, website_redirect_location, etag, checksum_crc32, checksum_crc32c, checksum_crc64nvme, checksum_sha1, checksum_sha256, checksum_type, size, version_id, is_delete_marker, is_latest, upload_status, upload_id, optimistic_lock_version, created_at, updated_at, storage_class FROM objects WHERE bucket_name = $1 AND key = $2 AND version_id = $3 AND upload_status = $4"
 	findNullObjectVersionByBucketNameAndKeyStmt                                                                     = "SELECT id, bucket_name, key, content_type, cache_control, content_disposition, content_encoding, content_language, expires, website_redirect_location, etag, checksum_crc32, checksum_crc32c, checksum_crc64nvme, checksum_sha1, checksum_sha256, checksum_type, size, version_id, is_delete_marker, is_latest, upload_status, upload_id, optimistic_lock_version, created_at, updated_at, storage_class FROM objects WHERE bucket_name = $1 AND key = $2 AND version_id = 'null' AND upload_status = $3"
 	findLatestObjectByBucketNameAndKeyExcludingIDStmt                                                               = "SELECT id, bucket_name, key, content_type, cache_control, content_disposition, content_encoding, content_language, expires, website_redirect_location, etag, checksum_crc32, checksum_crc32c, checksum_crc64nvme, checksum_sha1, checksum_sha256, checksum_type, size, version_id, is_delete_marker, is_latest, upload_status, upload_id, optimistic_lock_version, created_at, updated_at, storage_class FROM objects WHERE bucket_name = $1 AND key = $2 AND upload_status = $3 AND id != $4 ORDER BY created_at DESC LIMIT 1"
